@@ -25,6 +25,25 @@ func freshLike(name, src string) string {
 	return ""
 }
 
+// byteCol converts an LSP character offset (UTF-16 code units) on a line to a byte offset; -1 if it lies beyond
+// the line or inside a character
+func byteCol(line string, col int) int {
+	units := 0
+	for i, r := range line {
+		if units == col {
+			return i
+		}
+		units++
+		if r > 0xFFFF {
+			units++
+		}
+	}
+	if units == col {
+		return len(line)
+	}
+	return -1
+}
+
 func applyEdits(src string, edits []lib.TextEdit) (string, error) {
 	lines := strings.Split(src, "\n")
 	sort.Slice(edits, func(i, j int) bool {
@@ -36,10 +55,11 @@ func applyEdits(src string, edits []lib.TextEdit) (string, error) {
 			return "", fmt.Errorf("edit range %v is not inside one line of the file", e.Range)
 		}
 		l := lines[e.Range.Start.Line]
-		if e.Range.End.Character > len(l) || e.Range.Start.Character > e.Range.End.Character {
+		bs, be := byteCol(l, e.Range.Start.Character), byteCol(l, e.Range.End.Character)
+		if bs < 0 || be < 0 || bs > be {
 			return "", fmt.Errorf("edit range %v lies outside line %q", e.Range, l)
 		}
-		lines[e.Range.Start.Line] = l[:e.Range.Start.Character] + e.NewText + l[e.Range.End.Character:]
+		lines[e.Range.Start.Line] = l[:bs] + e.NewText + l[be:]
 	}
 	return strings.Join(lines, "\n"), nil
 }
@@ -110,8 +130,14 @@ func runC11(res *lib.Result, tier string, seed int64, args []string) error {
 				}
 				seen[k] = true
 				got = append(got, k)
-				if e.Range.Start.Line >= len(lines) || e.Range.End.Character > len(lines[e.Range.Start.Line]) || e.Range.Start.Line != e.Range.End.Line ||
-					lines[e.Range.Start.Line][e.Range.Start.Character:e.Range.End.Character] != o.name {
+				covered := ""
+				if e.Range.Start.Line < len(lines) && e.Range.Start.Line == e.Range.End.Line {
+					l := lines[e.Range.Start.Line]
+					if bs, be := byteCol(l, e.Range.Start.Character), byteCol(l, e.Range.End.Character); bs >= 0 && be >= bs {
+						covered = l[bs:be]
+					}
+				}
+				if covered != o.name {
 					bad = fmt.Sprintf("edit %s does not cover exactly the identifier %q", k, o.name)
 				}
 				if e.NewText != newName {
